@@ -180,6 +180,17 @@ def mask_layouts(mask):
     return out
 
 
+def vary_layout(mask):
+    """The mask as a boolean array in a memory layout chosen by a pure function of its content (C order, Fortran order,
+    stepped view, negative-stride view): equal element by element, so nothing a check compares may depend on it."""
+    import numpy as np
+    m = np.ascontiguousarray(np.asarray(mask, dtype=bool))
+    k = (int(m.sum()) * 31 + m.shape[0] * 7 + m.shape[1]) % 4
+    if k == 0:
+        return m.copy()
+    return mask_layouts(m)[(0, 2, 3)[k - 1]][1]
+
+
 def mask_stats(mask):
     """Classification labels for a mask given as list of lists / array."""
     import numpy as np
